@@ -105,8 +105,8 @@ func (in *inliner) text(n ast.Node) string {
 }
 
 // inlinePass plans one round of expansions. It returns the new overlay (nil when nothing was expanded).
-func (p *Program) inlinePass(overlay map[string][]byte, skipPkg map[string]bool) (map[string][]byte, []string) {
-	in := &inliner{p: p, skipPkg: skipPkg, src: map[string][]byte{}, edits: map[string][]inlEdit{}, imports: map[string]map[string]string{},
+func (p *Program) inlinePass(overlay map[string][]byte, skipPkg map[string]bool, round int) (map[string][]byte, []string) {
+	in := &inliner{p: p, skipPkg: skipPkg, n: round * 10000, src: map[string][]byte{}, edits: map[string][]inlEdit{}, imports: map[string]map[string]string{},
 		purity: map[*types.Func]int{}, why: map[string]string{}}
 	for k, v := range overlay {
 		in.src[k] = v
@@ -706,6 +706,30 @@ func (in *inliner) newExpansion(fi *FuncInfo, cc *callCtx) (*expansion, string) 
 	// assigned / address-taken parameters
 	ast.Inspect(body, func(n ast.Node) bool {
 		mark := func(e ast.Expr) {
+			// the parameter itself, or a part of a parameter that is a value (a field of a struct parameter, an element
+			// of an array parameter): the body then changes its own copy
+			for {
+				switch x := ast.Unparen(e).(type) {
+				case *ast.SelectorExpr:
+					if s := finfo.Selections[x]; s != nil && s.Kind() == types.FieldVal && !s.Indirect() {
+						if _, isPtr := finfo.TypeOf(x.X).Underlying().(*types.Pointer); !isPtr {
+							e = x.X
+							continue
+						}
+					}
+				case *ast.IndexExpr:
+					if _, isArr := finfo.TypeOf(x.X).Underlying().(*types.Array); isArr {
+						e = x.X
+						continue
+					}
+				case *ast.SliceExpr:
+					if _, isArr := finfo.TypeOf(x.X).Underlying().(*types.Array); isArr {
+						e = x.X
+						continue
+					}
+				}
+				break
+			}
 			if id, ok := ast.Unparen(e).(*ast.Ident); ok {
 				if v, ok := finfo.Uses[id].(*types.Var); ok && isParamOf(sig, v) {
 					assigned[v] = true
@@ -722,6 +746,21 @@ func (in *inliner) newExpansion(fi *FuncInfo, cc *callCtx) (*expansion, string) 
 		case *ast.UnaryExpr:
 			if n.Op == token.AND {
 				mark(n.X)
+			}
+		case *ast.CallExpr:
+			// a method with a pointer receiver called on a value parameter takes its address
+			if sel, ok := ast.Unparen(n.Fun).(*ast.SelectorExpr); ok {
+				if s := finfo.Selections[sel]; s != nil && s.Kind() == types.MethodVal {
+					if fn, ok := s.Obj().(*types.Func); ok {
+						if rs := fn.Type().(*types.Signature).Recv(); rs != nil {
+							if _, ptrRecv := rs.Type().(*types.Pointer); ptrRecv {
+								if _, argPtr := finfo.TypeOf(sel.X).Underlying().(*types.Pointer); !argPtr {
+									mark(sel.X)
+								}
+							}
+						}
+					}
+				}
 			}
 		case *ast.RangeStmt:
 			if n.Key != nil {
@@ -832,7 +871,17 @@ func (in *inliner) newExpansion(fi *FuncInfo, cc *callCtx) (*expansion, string) 
 		argHeapFree := all(a.args, func(e ast.Expr) bool { return heapFree(cc.callInfo, e) })
 		argDupSafe := !a.spread && all(a.args, dupSafe)
 		stable := ex.usesStable(uses, readsOf(cc.callInfo, a.args))
+		captured := false
+		for _, u := range uses {
+			if ex.insideLit(u) {
+				captured = true
+			}
+		}
 		switch {
+		case captured && a.v.Name() != "_" && a.v.Name() != "":
+			// a function literal of the body captures the parameter: it may run later, when the caller's variable has
+			// moved on; only a variable that never changes can stand for it
+			b.direct = !assigned[a.v] && !a.spread && !mentionsAddr && ex.constantLocal(a.args[0])
 		case cc.deferred && a.v.Name() != "_" && a.v.Name() != "":
 			// only a variable that is never assigned again has, when the caller returns, the value it had at the defer
 			b.direct = !assigned[a.v] && !a.spread && !mentionsAddr && ex.constantLocal(a.args[0])
@@ -939,6 +988,15 @@ func (ex *expansion) deadLocalAfterCall(arg ast.Expr, param *types.Var) bool {
 	// the call itself must not sit in a function literal (the variable could be captured)
 	if _, isLit := cc.enclLit.(*ast.FuncLit); isLit {
 		return false
+	}
+	// in a loop the call is its own successor: the variable has to be declared inside every loop around the call
+	for _, n := range cc.rs.stack {
+		switch n.(type) {
+		case *ast.ForStmt, *ast.RangeStmt:
+			if n.Pos() <= cc.call.Pos() && cc.call.End() <= n.End() && v.Pos() < n.Pos() {
+				return false
+			}
+		}
 	}
 	return dead
 }
@@ -1234,51 +1292,6 @@ func (in *inliner) pureFuncUncached(fn *types.Func) bool {
 	}
 	// no effect on anything but its own locals and the buffers it made itself
 	return len(in.effectsOf(fi)) == 0
-}
-
-func (in *inliner) pureFuncOld(fi *FuncInfo) bool {
-	info := fi.Pkg.TypesInfo
-	pure := true
-	locals := map[types.Object]bool{}
-	ast.Inspect(fi.Decl, func(n ast.Node) bool {
-		if id, ok := n.(*ast.Ident); ok {
-			if v, ok := info.Defs[id].(*types.Var); ok {
-				locals[v] = true
-			}
-		}
-		return true
-	})
-	ast.Inspect(fi.Decl.Body, func(n ast.Node) bool {
-		if !pure {
-			return false
-		}
-		switch n := n.(type) {
-		case *ast.AssignStmt:
-			for _, l := range n.Lhs {
-				id, ok := ast.Unparen(l).(*ast.Ident)
-				if !ok || (id.Name != "_" && !locals[info.ObjectOf(id)]) {
-					pure = false
-				}
-			}
-		case *ast.IncDecStmt:
-			id, ok := ast.Unparen(n.X).(*ast.Ident)
-			if !ok || !locals[info.ObjectOf(id)] {
-				pure = false
-			}
-		case *ast.SendStmt, *ast.GoStmt, *ast.DeferStmt, *ast.SelectStmt, *ast.FuncLit:
-			pure = false
-		case *ast.UnaryExpr:
-			if n.Op == token.ARROW {
-				pure = false
-			}
-		case *ast.CallExpr:
-			if !in.pureCall(info, n) {
-				pure = false
-			}
-		}
-		return true
-	})
-	return pure
 }
 
 func (in *inliner) pureCall(info *types.Info, call *ast.CallExpr) bool {
@@ -2125,6 +2138,13 @@ func (in *inliner) planHoist(fi *FuncInfo, cc *callCtx, rets []*ast.ReturnStmt, 
 	ex, reason := in.newExpansion(fi, cc)
 	if ex == nil {
 		return nil, reason
+	}
+	for _, b := range ex.binds {
+		for _, a := range b.args {
+			if !in.pureExpr(cc.callInfo, a) {
+				return nil, "operand of an expression (argument with effects)"
+			}
+		}
 	}
 	// flat: every name the body declares at its top level becomes unique
 	for _, bs := range body.List {
